@@ -160,6 +160,8 @@ EXPRS_CMT = {
     'not_in_bc': 'a not /* c */ in b',
     'content_arg_bc': 'f(1) /* c */ [x]',
     'dot_bc_before_call': 'a.b /* c */ (1)',
+    'dot_bc_inner': 'a /* c */ .b.c', 'dot_bc_inner_call': 'a /* c */ .b.c.d(1)', 'dot_lc_inner': 'f(x, a // c\n .b.c)',
+    'array1_bc': '(1 /* c */,)', 'array1_bc_after_comma': '(1, /* c */)', 'destruct1_bc': 'let (a /* c */,) = (1,)',
 }
 
 # contexts: how an expression is embedded; {E} is replaced
@@ -191,7 +193,7 @@ CONTEXTS = {
     'heading': '= H #{E}\n',
     'strong': '*#{E}*\n',
     'show_rhs': '#show heading: {E}\n',
-    'paren_wrap': '#({E})\n',
+    'paren_wrap': '#({E})\n', 'hash_paren_inline': 'text #({E}) text\n', 'hash_call_inline': 'text #g({E}) more\n', 'math_hash_paren': '$ #({E}) $\n',
     'binary_operand': '#let v = 1 + {E}\n',
     'unary_operand': '#let v = -{E}\n',
     'field_target': '#let v = ({E}).len()\n',
@@ -200,7 +202,7 @@ CONTEXTS = {
 }
 
 # statement-only forms can not stand in expression position
-STMT_ONLY = {'let', 'let_fn', 'let_destruct', 'let_dict_destruct', 'let_noinit', 'set', 'set_if', 'show', 'show_set', 'show_all', 'show_str',
+STMT_ONLY = {'destruct1_bc', 'let', 'let_fn', 'let_destruct', 'let_dict_destruct', 'let_noinit', 'set', 'set_if', 'show', 'show_set', 'show_all', 'show_str',
              'import', 'import_star', 'import_paren', 'import_as', 'import_bare', 'return', 'return_v', 'break', 'assign', 'add_assign',
              'destruct_assign', 'let_bc', 'let_lc', 'set_bc', 'show_bc', 'import_bc', 'import_lc', 'return_bc', 'destruct_lc'}
 STMT_CONTEXTS = ('hash', 'hash_eol', 'block', 'block_inline', 'content_in_code', 'list_item', 'math_hash', 'math_attach')
@@ -302,6 +304,8 @@ def main():
         put('m-%s--list' % mn, '- ' + m.replace('\n', '\n  ') + '\n')
         put('m-%s--code' % mn, '#let v = ' + m + '\n')
         put('m-%s--arg' % mn, '#f(' + m + ', 1)\n')
+        put('m-%s--inline-arg' % mn, 'text #box(' + m + ') more\n')
+        put('m-%s--in-math' % mn, '$ x #box(' + m + ') $\n')
     for kn, k in MARKUP.items():
         put('k-%s' % kn, k)
         if kn not in ('empty', 'only_nl', 'only_sp'):
